@@ -1,4 +1,4 @@
 INIT GenInit
 NEXT GenNext
-CONSTANTS MaxCells = 4000 MaxKLCells = 700 Thin = 149
+CONSTANTS MaxCells = 4000 MaxKLCells = 700 Thin = 199
 CHECK_DEADLOCK FALSE
